@@ -80,12 +80,12 @@ func (h *Authorization) Unmarshal(v base.HeaderValue) error {
 			return fmt.Errorf("invalid value")
 		}
 
-		tmp2 := strings.Split(string(tmp), ":")
-		if len(tmp2) != 2 {
+		// the user name can't contain a colon, the password can (RFC 7617).
+		var found2 bool
+		h.Username, h.BasicPass, found2 = strings.Cut(string(tmp), ":")
+		if !found2 {
 			return fmt.Errorf("invalid value")
 		}
-
-		h.Username, h.BasicPass = tmp2[0], tmp2[1]
 	} else { // digest
 		kvs, err := keyValParseOrdered(v0, ',')
 		if err != nil {
